@@ -292,6 +292,8 @@ func nativeByPattern(name string) nativeFn {
 	switch {
 	case strings.HasPrefix(name, "slices.Sort["):
 		return nativeSlicesSort
+	case strings.HasPrefix(name, "slices.Contains["):
+		return nativeSlicesContains
 	}
 	return nil
 }
@@ -418,4 +420,102 @@ func (x *Exec) hashNative(st *State, name string, in Val, size int64) (Val, bool
 	st.assume(Eq(x.bytesOf(st, r), h))
 	x.Trusted["assumed collision-free: "+name]++
 	return r, true
+}
+
+// ---------- math/big, sdk.Coin ----------
+
+func ratNum(t Term) Term { return App(SInt, "rat.num", t) }
+func ratDen(t Term) Term { return App(SInt, "rat.den", t) }
+
+func init() {
+	big := "math/big."
+	// (*big.Rat).SetString: a deterministic parse; on success the denominator is positive
+	natives[big+"(*Rat).SetString"] = func(x *Exec, st *State, fr *Frame, at ssa.Instruction, a []Val) (Val, bool) {
+		x.D.DeclareFun("rat.parse.ok", []string{SStr}, SBool)
+		x.D.DeclareFun("rat.parse.num", []string{SStr}, SInt)
+		x.D.DeclareFun("rat.parse.den", []string{SStr}, SInt)
+		s := a[1].T
+		ok := App(SBool, "rat.parse.ok", s)
+		r := Ite(ok, App("Rat", "mk-rat", TFalse, App(SInt, "rat.parse.num", s), App(SInt, "rat.parse.den", s)), Term{"(mk-rat true 0 1)", "Rat"})
+		st.assume(App(SBool, ">", App(SInt, "rat.parse.den", s), IntLit(0)))
+		rv := Val{T: x.define(st, "rat", r), Typ: a[0].Typ}
+		return Val{T: Term{"unit", SUnit}, Tup: []Val{rv, {T: ok, Typ: types.Typ[types.Bool]}}}, true
+	}
+	natives[big+"(*Rat).Sign"] = func(x *Exec, st *State, fr *Frame, at ssa.Instruction, a []Val) (Val, bool) {
+		x.safety(st, fr, at, "ratnil", Not(App(SBool, "rat.nil", a[0].T)))
+		n := ratNum(a[0].T)
+		return Val{T: Ite(App(SBool, ">", n, IntLit(0)), IntLit(1), Ite(App(SBool, "<", n, IntLit(0)), IntLit(-1), IntLit(0))), Typ: types.Typ[types.Int]}, true
+	}
+	natives[big+"(*Rat).Num"] = func(x *Exec, st *State, fr *Frame, at ssa.Instruction, a []Val) (Val, bool) {
+		x.safety(st, fr, at, "ratnil", Not(App(SBool, "rat.nil", a[0].T)))
+		return Val{T: mkMInt(ratNum(a[0].T)), Typ: nil}, true
+	}
+	natives[big+"(*Rat).Denom"] = func(x *Exec, st *State, fr *Frame, at ssa.Instruction, a []Val) (Val, bool) {
+		x.safety(st, fr, at, "ratnil", Not(App(SBool, "rat.nil", a[0].T)))
+		return Val{T: mkMInt(ratDen(a[0].T)), Typ: nil}, true
+	}
+	bigFromInt := func(x *Exec, st *State, fr *Frame, at ssa.Instruction, a []Val) (Val, bool) {
+		return Val{T: mkMInt(a[len(a)-1].T), Typ: nil}, true
+	}
+	natives[big+"NewInt"] = bigFromInt
+	natives[big+"(*Int).SetUint64"] = bigFromInt
+	natives[big+"(*Int).SetInt64"] = bigFromInt
+
+	// sdk.NewCoin(denom, amount): the coin itself (it panics for a negative amount / invalid denom)
+	natives[pkgSDK+"NewCoin"] = func(x *Exec, st *State, fr *Frame, at ssa.Instruction, a []Val) (Val, bool) {
+		ct := typNamed(x, "github.com/cosmos/cosmos-sdk/types", "Coin")
+		si := x.S.StructInfo(ct)
+		if si == nil || len(si.fields) != 2 {
+			return Val{}, false
+		}
+		x.safety(st, fr, at, "NewCoin.nonneg", And(Not(mintNil(a[1].T)), App(SBool, ">=", mintV(a[1].T), IntLit(0))))
+		return Val{T: App(si.sort, "mk-"+si.sort, a[0].T, a[1].T), Typ: ct}, true
+	}
+	// sdk.NewCoins(c): for ONE coin: the singleton {c}, or the empty set when c is zero
+	natives[pkgSDK+"NewCoins"] = func(x *Exec, st *State, fr *Frame, at ssa.Instruction, a []Val) (Val, bool) {
+		va := a[0]
+		if va.T.Sort != SSlice || concreteInt(App(SInt, "s.len", va.T)) != 1 {
+			return Val{}, false
+		}
+		ct := typNamed(x, "github.com/cosmos/cosmos-sdk/types", "Coin")
+		cst := typNamed(x, "github.com/cosmos/cosmos-sdk/types", "Coins")
+		si := x.S.StructInfo(ct)
+		if si == nil {
+			return Val{}, false
+		}
+		name, as := elemArrName(si.sort)
+		arr := x.heapArr(st, name, as)
+		c := x.define(st, "coin", Select(Select(arr, App(SRef, "s.base", va.T)), App(SInt, "s.off", va.T)))
+		amt := App(SMInt, x.S.fieldSel(si.sort, si.typ, 1), c)
+		base := x.newRef(st, "coins")
+		zero := Eq(mintV(amt), IntLit(0))
+		n := Ite(zero, IntLit(0), IntLit(1))
+		x.setHeap(st, name, Store(arr, base, Store(Select(arr, base), IntLit(0), c)))
+		r := Val{T: App(SSlice, "mk-slice", base, IntLit(0), n, IntLit(1)), Typ: cst}
+		return r, true
+	}
+}
+
+// slices.Contains(s, v): exists i in [0,len) with s[i] == v (element sorts with term equality only).
+func nativeSlicesContains(x *Exec, st *State, fr *Frame, at ssa.Instruction, a []Val) (Val, bool) {
+	s, v := a[0], a[1]
+	sl, ok := s.Typ.Underlying().(*types.Slice)
+	if !ok || s.T.Sort != SSlice {
+		return Val{}, false
+	}
+	sort := x.S.SortOf(sl.Elem())
+	if sort != SInt && sort != SStr && sort != SBool && sort != SRef {
+		return Val{}, false
+	}
+	n, as := elemArrName(sort)
+	row := x.define(st, "crow", Select(x.heapArr(st, n, as), App(SRef, "s.base", s.T)))
+	off, ln := App(SInt, "s.off", s.T), App(SInt, "s.len", s.T)
+	r := x.D.Fresh("contains", SBool)
+	x.nquant++
+	wit := x.D.Fresh("contains.at", SInt)
+	// r ==> a witness index exists; !r ==> no index matches
+	st.assume(Implies(r, And(App(SBool, "<=", IntLit(0), wit), App(SBool, "<", wit, ln), Eq(Select(row, App(SInt, "+", off, wit)), v.T))))
+	q := fmt.Sprintf("c_q%d", x.nquant)
+	st.assume(Implies(Not(r), Term{fmt.Sprintf("(forall ((%[1]s Int)) (! (=> (and (<= 0 %[1]s) (< %[1]s %[2]s)) (not (= (select %[3]s (+ %[4]s %[1]s)) %[5]s))) :pattern ((select %[3]s (+ %[4]s %[1]s)))))", q, ln.S, row.S, off.S, v.T.S), SBool}))
+	return Val{T: r, Typ: types.Typ[types.Bool]}, true
 }
